@@ -111,76 +111,296 @@ theorem _root_.KafVerif.C40.mutators_change_state (m : Method) (h : m ∉ readOn
   | createTopic => exact ⟨empty 1, .createTopic 0 2, rfl, by decide⟩
   | deleteTopic => exact ⟨{ empty 1 with topics := [(0, 1)] }, .deleteTopic 0, rfl, by decide⟩
 
-/-! ### aliasing: reads hand out copies, never store-owned buffers -/
+/-! ### aliasing: reads hand out copies, never store-owned buffers (at ANY nesting level) -/
 
-/-- every buffer id the store references exists in the heap -/
-def HStore.WF (h : HStore) : Prop := ∀ b ∈ h.owned, b < h.heap.length
+/-- every buffer reachable from the store's root exists in the heap -/
+def HStore.WF (s : HStore) : Prop :=
+  s.root < s.heap.topics.length ∧
+  ∀ t ∈ s.heap.topics.getD s.root [], t.parts < s.heap.parts.length ∧
+    ∀ p ∈ s.heap.parts.getD t.parts [],
+      p.replicas < s.heap.ints.length ∧ p.isr < s.heap.ints.length ∧ p.offline < s.heap.ints.length
 
-theorem getD_set_ne (heap : List (List Nat)) (b b' : Nat) (d : List Nat) (hne : b' ≠ b) :
-    (heap.set b d).getD b' [] = heap.getD b' [] := by
+/-- `h'` holds everything `h` held, at the same ids -/
+def Heap.Agree (h h' : Heap) : Prop :=
+  (∀ b, b < h.ints.length → h'.ints.getD b [] = h.ints.getD b []) ∧
+  (∀ b, b < h.parts.length → h'.parts.getD b [] = h.parts.getD b []) ∧
+  (∀ b, b < h.topics.length → h'.topics.getD b [] = h.topics.getD b [])
+
+/-- `h'` is `h` plus newly allocated buffers -/
+def Heap.Ext (h h' : Heap) : Prop :=
+  h.ints <+: h'.ints ∧ h.parts <+: h'.parts ∧ h.topics <+: h'.topics
+
+theorem Heap.Ext.refl (h : Heap) : h.Ext h := ⟨List.prefix_refl _, List.prefix_refl _, List.prefix_refl _⟩
+
+theorem Heap.Ext.trans {a b c : Heap} (h1 : a.Ext b) (h2 : b.Ext c) : a.Ext c :=
+  ⟨h1.1.trans h2.1, h1.2.1.trans h2.2.1, h1.2.2.trans h2.2.2⟩
+
+theorem getD_of_prefix {α : Type} {l l' : List α} (hp : l <+: l') (b : Nat) (hb : b < l.length) (d : α) :
+    l'.getD b d = l.getD b d := by
+  obtain ⟨t, rfl⟩ := hp
+  simp [List.getD, List.getElem?_append_left hb]
+
+theorem Heap.Ext.agree {h h' : Heap} (e : h.Ext h') : h.Agree h' :=
+  ⟨fun b hb => getD_of_prefix e.1 b hb [], fun b hb => getD_of_prefix e.2.1 b hb [],
+   fun b hb => getD_of_prefix e.2.2 b hb []⟩
+
+theorem getD_set_ne {α : Type} (l : List α) (b b' : Nat) (x d : α) (hne : b' ≠ b) :
+    (l.set b x).getD b' d = l.getD b' d := by
   simp [List.getD, hne.symm]
 
-/-- **reads return copies**: every buffer `readCopy` hands out is fresh — it is not one the store's
-state references (for every well-formed store, however its lists are ordered or duplicated). -/
-theorem _root_.KafVerif.C40.read_returns_fresh_buffers (h : HStore) (hw : h.WF) :
-    ∀ b ∈ (readCopy h).2, b ∉ (readCopy h).1.owned := by
-  intro b hb hm
-  simp only [readCopy, List.mem_map, List.mem_range] at hb
-  obtain ⟨i, _, rfl⟩ := hb
-  have := hw _ hm
-  omega
+/-- **frame**: the store's view only reads buffers below the bounds of the heap it is well-formed in -/
+theorem view_eq_of_agree (s s' : HStore) (hw : s.WF) (hr : s'.root = s.root) (ha : s.heap.Agree s'.heap) :
+    s'.view = s.view := by
+  obtain ⟨hroot, hts⟩ := hw
+  simp only [HStore.view, hr, ha.2.2 _ hroot]
+  apply List.map_congr_left
+  intro t ht
+  obtain ⟨hp, hps⟩ := hts t ht
+  simp only [Heap.viewTopic, ha.2.1 _ hp]
+  congr 1
+  apply List.map_congr_left
+  intro p hpm
+  obtain ⟨h1, h2, h3⟩ := hps p hpm
+  simp only [Heap.viewPart, ha.1 _ h1, ha.1 _ h2, ha.1 _ h3]
+
+theorem clonePart_spec (h : Heap) (p : HPart) :
+    h.Ext (clonePart h p).1 ∧ h.ints.length ≤ (clonePart h p).2.replicas ∧
+    h.ints.length ≤ (clonePart h p).2.isr ∧ h.ints.length ≤ (clonePart h p).2.offline := by
+  refine ⟨⟨?_, List.prefix_refl _, List.prefix_refl _⟩, ?_, ?_, ?_⟩ <;> simp [clonePart]
+
+theorem Heap.Ext.ints_le {h h' : Heap} (e : h.Ext h') : h.ints.length ≤ h'.ints.length := e.1.length_le
+theorem Heap.Ext.parts_le {h h' : Heap} (e : h.Ext h') : h.parts.length ≤ h'.parts.length := e.2.1.length_le
+theorem Heap.Ext.topics_le {h h' : Heap} (e : h.Ext h') : h.topics.length ≤ h'.topics.length := e.2.2.length_le
+
+theorem cloneParts_spec (h : Heap) (ps : List HPart) :
+    h.Ext (cloneParts h ps).1 ∧ ∀ p ∈ (cloneParts h ps).2,
+      h.ints.length ≤ p.replicas ∧ h.ints.length ≤ p.isr ∧ h.ints.length ≤ p.offline := by
+  induction ps generalizing h with
+  | nil => exact ⟨Heap.Ext.refl h, by simp [cloneParts]⟩
+  | cons p ps ih =>
+    obtain ⟨e1, f1⟩ := clonePart_spec h p
+    obtain ⟨e2, f2⟩ := ih (clonePart h p).1
+    refine ⟨e1.trans e2, ?_⟩
+    intro q hq
+    simp only [cloneParts, List.mem_cons] at hq
+    rcases hq with rfl | hq
+    · exact f1
+    · have := f2 q hq
+      have := e1.ints_le
+      omega
+
+theorem cloneTopic_spec (h : Heap) (t : HTopic) :
+    h.Ext (cloneTopic h t).1 ∧ h.parts.length ≤ (cloneTopic h t).2.parts ∧
+    (cloneTopic h t).2.parts < (cloneTopic h t).1.parts.length ∧
+    ∀ p ∈ (cloneTopic h t).1.parts.getD (cloneTopic h t).2.parts [],
+      h.ints.length ≤ p.replicas ∧ h.ints.length ≤ p.isr ∧ h.ints.length ≤ p.offline := by
+  obtain ⟨e, f⟩ := cloneParts_spec h (h.parts.getD t.parts [])
+  refine ⟨⟨e.1, ?_, e.2.2⟩, ?_, ?_, ?_⟩
+  · exact e.2.1.trans (List.prefix_append _ _)
+  · exact e.parts_le
+  · simp [cloneTopic]
+  · simpa [cloneTopic, List.getD] using f
+
+theorem cloneTopicsL_spec (h : Heap) (ts : List HTopic) :
+    h.Ext (cloneTopicsL h ts).1 ∧ ∀ t ∈ (cloneTopicsL h ts).2,
+      h.parts.length ≤ t.parts ∧ t.parts < (cloneTopicsL h ts).1.parts.length ∧
+      ∀ p ∈ (cloneTopicsL h ts).1.parts.getD t.parts [],
+        h.ints.length ≤ p.replicas ∧ h.ints.length ≤ p.isr ∧ h.ints.length ≤ p.offline := by
+  induction ts generalizing h with
+  | nil => exact ⟨Heap.Ext.refl h, by simp [cloneTopicsL]⟩
+  | cons t ts ih =>
+    obtain ⟨e1, f1, f2, f3⟩ := cloneTopic_spec h t
+    obtain ⟨e2, g⟩ := ih (cloneTopic h t).1
+    refine ⟨e1.trans e2, ?_⟩
+    intro q hq
+    simp only [cloneTopicsL, List.mem_cons] at hq ⊢
+    rcases hq with rfl | hq
+    · refine ⟨f1, Nat.lt_of_lt_of_le f2 e2.parts_le, ?_⟩
+      rw [e2.agree.2.1 _ f2]
+      exact f3
+    · obtain ⟨g1, g2, g3⟩ := g q hq
+      refine ⟨Nat.le_trans e1.parts_le g1, g2, ?_⟩
+      intro p hp
+      have := g3 p hp
+      have := e1.ints_le
+      omega
+
+theorem readCopy_ext (s : HStore) : s.heap.Ext (readCopy s).1.heap ∧ (readCopy s).1.root = s.root := by
+  obtain ⟨e, _⟩ := cloneTopicsL_spec s.heap (s.heap.topics.getD s.root [])
+  exact ⟨⟨e.1, e.2.1, e.2.2.trans (List.prefix_append _ _)⟩, rfl⟩
+
+/-- every buffer reachable from what `readCopy` returns was allocated by the read (its id is beyond the
+heap the store was well-formed in) — at every level -/
+theorem readCopy_fresh (s : HStore) :
+    let out := (readCopy s).1.heap.reach (readCopy s).2
+    (∀ b ∈ out.ints, s.heap.ints.length ≤ b) ∧ (∀ b ∈ out.parts, s.heap.parts.length ≤ b) ∧
+    (∀ b ∈ out.topics, s.heap.topics.length ≤ b) := by
+  obtain ⟨e, f⟩ := cloneTopicsL_spec s.heap (s.heap.topics.getD s.root [])
+  have hroot : (readCopy s).1.heap.topics.getD (readCopy s).2 [] =
+      (cloneTopicsL s.heap (s.heap.topics.getD s.root [])).2 := by
+    simp [readCopy, List.getD]
+  have hparts : (readCopy s).1.heap.parts = (cloneTopicsL s.heap (s.heap.topics.getD s.root [])).1.parts := rfl
+  simp only [Heap.reach, hroot, hparts]
+  refine ⟨?_, ?_, ?_⟩
+  · intro b hb
+    simp only [List.mem_flatMap] at hb
+    obtain ⟨p, ⟨t, ht, hp⟩, hb⟩ := hb
+    obtain ⟨h1, h2, h3⟩ := (f t ht).2.2 p hp
+    simp only [List.mem_cons, List.not_mem_nil, or_false] at hb
+    rcases hb with rfl | rfl | rfl <;> assumption
+  · intro b hb
+    simp only [List.mem_map] at hb
+    obtain ⟨t, ht, rfl⟩ := hb
+    exact (f t ht).1
+  · intro b hb
+    simp only [List.mem_singleton] at hb
+    subst hb
+    exact e.topics_le
+
+/-- every buffer reachable from the store's own root lies inside the heap the store is well-formed in -/
+theorem own_below (s s' : HStore) (hw : s.WF) (hr : s'.root = s.root) (ha : s.heap.Agree s'.heap) :
+    let own := s'.heap.reach s'.root
+    (∀ b ∈ own.ints, b < s.heap.ints.length) ∧ (∀ b ∈ own.parts, b < s.heap.parts.length) ∧
+    (∀ b ∈ own.topics, b < s.heap.topics.length) := by
+  obtain ⟨hroot, hts⟩ := hw
+  simp only [Heap.reach, hr, ha.2.2 _ hroot]
+  refine ⟨?_, ?_, ?_⟩
+  · intro b hb
+    simp only [List.mem_flatMap] at hb
+    obtain ⟨p, ⟨t, ht, hp⟩, hb⟩ := hb
+    rw [ha.2.1 _ (hts t ht).1] at hp
+    obtain ⟨h1, h2, h3⟩ := (hts t ht).2 p hp
+    simp only [List.mem_cons, List.not_mem_nil, or_false] at hb
+    rcases hb with rfl | rfl | rfl <;> assumption
+  · intro b hb
+    simp only [List.mem_map] at hb
+    obtain ⟨t, ht, rfl⟩ := hb
+    exact (hts t ht).1
+  · intro b hb
+    simp only [List.mem_singleton] at hb
+    subst hb
+    exact hroot
+
+/-- **reads return copies**: every buffer reachable from what `readCopy` hands out — the topics array,
+every partitions array, every replica / ISR / offline array — is fresh: it is not reachable from the
+store's state (for every well-formed store, however its lists are ordered or duplicated). -/
+theorem _root_.KafVerif.C40.read_returns_fresh_buffers (s : HStore) (hw : s.WF) :
+    let out := (readCopy s).1.heap.reach (readCopy s).2
+    let own := (readCopy s).1.heap.reach (readCopy s).1.root
+    (∀ b ∈ out.ints, b ∉ own.ints) ∧ (∀ b ∈ out.parts, b ∉ own.parts) ∧ (∀ b ∈ out.topics, b ∉ own.topics) := by
+  obtain ⟨e, hr⟩ := readCopy_ext s
+  obtain ⟨f1, f2, f3⟩ := readCopy_fresh s
+  obtain ⟨o1, o2, o3⟩ := own_below s (readCopy s).1 hw hr e.agree
+  refine ⟨fun b hb hm => ?_, fun b hb hm => ?_, fun b hb hm => ?_⟩
+  · have := f1 b hb; have := o1 b hm; omega
+  · have := f2 b hb; have := o2 b hm; omega
+  · have := f3 b hb; have := o3 b hm; omega
 
 /-- the copy itself leaves what the store holds unchanged, order included -/
-theorem readCopy_view (h : HStore) (hw : h.WF) : (readCopy h).1.view = h.view := by
-  simp only [readCopy, HStore.view]
-  apply List.map_congr_left
-  intro b hb
-  have := hw b hb
-  simp [List.getD, List.getElem?_append_left this]
+theorem readCopy_view (s : HStore) (hw : s.WF) : (readCopy s).1.view = s.view :=
+  view_eq_of_agree s _ hw (readCopy_ext s).2 (readCopy_ext s).1.agree
 
-/-- **C40 (aliasing).** Whatever a handler then writes into ANY of the buffers a read handed out
-(sorting, truncating, overwriting — any contents, any number of writes), what the store holds is
-unchanged: same lists, same order. -/
-theorem _root_.KafVerif.C40.handler_writes_preserve_store (h : HStore) (hw : h.WF)
-    (writes : List (Nat × List Nat)) (hret : ∀ w ∈ writes, w.1 ∈ (readCopy h).2) :
-    (writes.foldl (fun hs w => handlerWrite hs w.1 w.2) (readCopy h).1).view = h.view := by
-  have hfresh := KafVerif.C40.read_returns_fresh_buffers h hw
-  rw [← readCopy_view h hw]
-  generalize hr : readCopy h = r at hfresh hret
-  obtain ⟨h1, ret⟩ := r
-  simp only at hfresh hret ⊢
-  suffices ∀ (hs : HStore), hs.owned = h1.owned → hs.view = h1.view →
-      (writes.foldl (fun hs w => handlerWrite hs w.1 w.2) hs).view = h1.view from this h1 rfl rfl
+theorem handlerWrite_agree (h0 : Heap) (s' : HStore) (w : Write) (ha : h0.Agree s'.heap)
+    (hfresh : w.above h0) :
+    h0.Agree (handlerWrite s' w).heap ∧ (handlerWrite s' w).root = s'.root := by
+  cases w with
+  | ints b d =>
+    refine ⟨⟨fun b' hb' => ?_, ha.2.1, ha.2.2⟩, rfl⟩
+    simp only [Write.above] at hfresh
+    simp only [handlerWrite]
+    rw [getD_set_ne _ _ _ _ _ (by omega)]
+    exact ha.1 b' hb'
+  | parts b d =>
+    refine ⟨⟨ha.1, fun b' hb' => ?_, ha.2.2⟩, rfl⟩
+    simp only [Write.above] at hfresh
+    simp only [handlerWrite]
+    rw [getD_set_ne _ _ _ _ _ (by omega)]
+    exact ha.2.1 b' hb'
+  | topics b d =>
+    refine ⟨⟨ha.1, ha.2.1, fun b' hb' => ?_⟩, rfl⟩
+    simp only [Write.above] at hfresh
+    simp only [handlerWrite]
+    rw [getD_set_ne _ _ _ _ _ (by omega)]
+    exact ha.2.2 b' hb'
+
+/-- **C40 (aliasing).** Whatever a handler then writes into ANY buffer reachable from what a read handed
+out — the returned topics array, any partitions array, any replica / ISR / offline array; sorting,
+truncating, overwriting, any contents, any number of writes — what the store holds is unchanged: same
+topics, same partition entries, same lists, same order at every level.
+(References cannot be forged in Go: a handler only holds buffers reachable from what it was handed or ones it
+allocated itself, so its write targets are drawn from that closure, which `read_returns_fresh_buffers` shows
+to be disjoint from the store's.) -/
+theorem _root_.KafVerif.C40.handler_writes_preserve_store (s : HStore) (hw : s.WF)
+    (writes : List Write)
+    (hret : ∀ w ∈ writes, w.inSet ((readCopy s).1.heap.reach (readCopy s).2)) :
+    (writes.foldl handlerWrite (readCopy s).1).view = s.view := by
+  obtain ⟨e, hr⟩ := readCopy_ext s
+  obtain ⟨f1, f2, f3⟩ := readCopy_fresh s
+  generalize (readCopy s).1.heap.reach (readCopy s).2 = out at hret f1 f2 f3
+  suffices ∀ (s' : HStore), s'.root = s.root → s.heap.Agree s'.heap →
+      (writes.foldl handlerWrite s').view = s.view from this _ hr e.agree
   induction writes with
-  | nil => intro hs _ hv; exact hv
+  | nil => intro s' hr' ha; exact view_eq_of_agree s s' hw hr' ha
   | cons w t ih =>
-    intro hs ho hv
+    intro s' hr' ha
     simp only [List.foldl_cons]
-    apply ih (fun w' hw' => hret w' (List.mem_cons_of_mem _ hw'))
-    · simpa [handlerWrite] using ho
-    · rw [← hv]
-      simp only [handlerWrite, HStore.view]
-      apply List.map_congr_left
-      intro b hb
-      have hne : b ≠ w.1 := by
-        intro e
-        have h1' := hret w List.mem_cons_self
-        rw [← e] at h1'
-        rw [ho] at hb
-        exact hfresh b h1' hb
-      exact getD_set_ne hs.heap w.1 b w.2 hne
+    have hin := hret w List.mem_cons_self
+    have hf : w.above s.heap := by
+      cases w with
+      | ints b d => exact f1 b hin
+      | parts b d => exact f2 b hin
+      | topics b d => exact f3 b hin
+    obtain ⟨ha', hr''⟩ := handlerWrite_agree s.heap s' w ha hf
+    exact ih (fun w' hw' => hret w' (List.mem_cons_of_mem _ hw')) _ (hr''.trans hr') ha'
+
+/-- a store holding one topic whose partitions array is stored in the order 2,0,1 and whose first entry has
+the replica list [2,0,1] -/
+def hsample : HStore :=
+  ⟨⟨[[2, 0, 1], [0]], [[⟨2, 2, 0, 0, 1⟩, ⟨0, 0, 1, 1, 1⟩, ⟨1, 0, 1, 1, 1⟩]], [[⟨7, 0, 0⟩]]⟩, 0⟩
+
+theorem hsample_wf : hsample.WF := by
+  refine ⟨by decide, ?_⟩
+  intro t ht
+  have : t = ⟨7, 0, 0⟩ := by simpa [hsample, List.getD] using ht
+  subst this
+  refine ⟨by decide, ?_⟩
+  intro p hp
+  have : p = ⟨2, 2, 0, 0, 1⟩ ∨ p = ⟨0, 0, 1, 1, 1⟩ ∨ p = ⟨1, 0, 1, 1, 1⟩ := by
+    simpa [hsample, List.getD] using hp
+  rcases this with rfl | rfl | rfl <;> decide
 
 /-- without the deep clone the same handler write DOES change the store: a read that hands out the
-store's own buffers plus a handler that sorts its argument rewrites the stored replica order
-(the shape of the seeded change C40-1; kept so a regression is recognised). -/
+store's topics BY VALUE (sharing their arrays) plus a handler that sorts a replica list it reached rewrites
+the stored replica order (the shape of the seeded change C40-1; kept so a regression is recognised). -/
 theorem _root_.KafVerif.C40.aliasing_read_breaks_store :
-    ∃ (h : HStore) (b : Nat) (d : List Nat), h.WF ∧ b ∈ (readAlias h).2 ∧
-      (handlerWrite (readAlias h).1 b d).view ≠ h.view := by
-  refine ⟨⟨[[2, 0, 1]], [0]⟩, 0, [0, 1, 2], ?_, by decide, by decide⟩
-  intro b hb
-  simp at hb
-  subst hb
-  decide
+    ∃ (s : HStore) (w : Write), s.WF ∧ w.inSet ((readShallow s).1.heap.reach (readShallow s).2) ∧
+      (handlerWrite (readShallow s).1 w).view ≠ s.view :=
+  ⟨hsample, .ints 0 [0, 1, 2], hsample_wf, by decide, by decide⟩
+
+/-- same one level up (the shape of the seeded change C40-r2-2): the by-value copy of a topic shares its
+PARTITIONS array with the store, so a handler that sorts `topic.Partitions` by id reorders the store's own
+partition entries (stored 2,0,1 → 0,1,2). -/
+theorem _root_.KafVerif.C40.aliasing_partition_array_breaks_store :
+    ∃ (s : HStore) (w : Write), s.WF ∧ w.inSet ((readShallow s).1.heap.reach (readShallow s).2) ∧
+      (handlerWrite (readShallow s).1 w).view ≠ s.view ∧
+      ((handlerWrite (readShallow s).1 w).view.map fun t => t.parts.map (·.id)) = [[0, 1, 2]] ∧
+      (s.view.map fun t => t.parts.map (·.id)) = [[2, 0, 1]] :=
+  ⟨hsample, .parts 0 [⟨0, 0, 1, 1, 1⟩, ⟨1, 0, 1, 1, 1⟩, ⟨2, 2, 0, 0, 1⟩], hsample_wf, by decide, by decide,
+   by decide, by decide⟩
+
+/-- non-vacuity of `handler_writes_preserve_store`: on the same store, after the cloning read the handler can
+sort the partitions array AND the replica list it was handed (both are in the handed-out closure), and the
+store still holds 2,0,1 / [2,0,1] -/
+example :
+    let ws : List Write := [.parts 1 [⟨0, 0, 1, 1, 1⟩, ⟨1, 0, 1, 1, 1⟩, ⟨2, 2, 0, 0, 1⟩], .ints 2 [0, 1, 2]]
+    (∀ w ∈ ws, w.inSet ((readCopy hsample).1.heap.reach (readCopy hsample).2)) ∧
+    (ws.foldl handlerWrite (readCopy hsample).1).view = hsample.view ∧
+    (hsample.view.map fun t => t.parts.map (·.id)) = [[2, 0, 1]] := by
+  refine ⟨?_, by decide, by decide⟩
+  intro w hw
+  simp only [List.mem_cons, List.not_mem_nil, or_false] at hw
+  rcases hw with rfl | rfl <;> decide
+example : ((readCopy hsample).1.heap.reach (readCopy hsample).2) = ⟨[2, 3, 4, 5, 6, 7, 8, 9, 10], [1], [1]⟩ := by decide
 
 /-! ### non-vacuity: the handler models do read a populated store -/
 
@@ -197,5 +417,15 @@ example : (runTool sample .listTopics).2 = .topics none [(0, 1, 0), (1, 3, 0)] :
 /-- stored replica order (non-ascending, with duplicates) is what describe_topics reports -/
 example : (runTool { sample with layouts := [((0, 0), layoutOf 4 0)] } (.describeTopics [0])).2 =
     .topicDetails [(0, 0, [⟨0, [2, 2, 0], [1, 2, 0], []⟩])] := by decide
+
+/-- a topic whose partitions array is stored in the order 2,0,1 (`ptopic`): describe_topics (canonical output:
+by id) reads it, the stored order is part of the state that `runTool_preserves_state` shows unchanged, and
+CreatePartitions appends ids from the current LENGTH -/
+def psample : Store :=
+  { sample with topics := sample.topics ++ [(2, 3)], partIds := [(2, [2, 0, 1])], layouts := [((2, 0), layoutOf 4 0)] }
+example : (runTool psample (.describeTopics [2])).2 =
+    .topicDetails [(2, 0, [⟨0, [0], [0], []⟩, ⟨1, [0], [0], []⟩, ⟨2, [2, 2, 0], [1, 2, 0], []⟩])] := by decide
+example : (runTool psample (.describeTopics [2])).1.partIds = [(2, [2, 0, 1])] := by decide
+example : (exec psample (.createPartitions 2 5)).partIds = [(2, [2, 0, 1, 3, 4])] := by decide
 
 end KafVerif.Mcp
